@@ -24,7 +24,7 @@ PROP = "C08"
 FUNCTIONS = ["Input.send", "Input._send", "Input._send.find_key", "Input._wait_for_read_ready_or_timeout", "Input._nonblocking_read",
              "Input.unget_bytes", "Input.event_trigger", "Input.scheduled_event_trigger", "Input.threadsafe_event_trigger",
              "Input.sigint_handler", "ReplacedSigIntHandler", "Nonblocking", "events.get_key", "Input.__enter__/__exit__"]
-BOUNDS = ("histories of up to 3 steps (quick; thorough 4) over 19 step kinds, followed by a drain (requests with timeout 0 until "
+BOUNDS = ("histories of up to 3 steps (quick; thorough 4) over 30 step kinds, followed by a drain (requests with timeout 0 until "
           "None); chunks: ASCII key, 2- / 3- / 4-byte characters, escape sequences (whole, and split over two arrivals), two keys "
           "at once, a burst of 1030 bytes of 2-byte characters (odd alignment against READ_SIZE) and a burst of escape "
           "sequences; paste_threshold in {default, 1, 0, None}; sigint_event on/off; bytes naming (so that byte conservation "
@@ -48,7 +48,7 @@ STEPS = (
     + [("tick", 0.6)]
     + [("send", 0), ("send", 0.3), ("send", None)]
     + [("during_arrive", "a"), ("during_arrive", "up"), ("during_ts", 0), ("during_sigint", 0)]
-    + [("during_ts_preempt", 0)]
+    + [("during_ts_preempt", 0), ("during_ts2", 0)]
 )
 UNITS = {"a": [b"a"], "e2": ["é".encode("utf8")], "e3": ["€".encode("utf8")], "e4": ["😀".encode("utf8")], "up": [b"\x1b[A"],
          "f5": [b"\x1b[15~"], "ab": [b"a", b"b"], "burst": [b"a"] + ["é".encode("utf8")] * 515, "burstesc": [b"\x1b[A"] * 400,
@@ -259,6 +259,15 @@ def run_history(steps, thr, sig):
                         ts_cb[0] = inp.threadsafe_event_trigger(mk("ts"))
 
                     def act(mm):
+                        ts_cb[0]()
+                    m.schedule.append((m.clock + 0.1, act))
+                elif kind == "during_ts2":
+                    # two callbacks fire before the blocked request gets to run again
+                    if ts_cb[0] is None:
+                        ts_cb[0] = inp.threadsafe_event_trigger(mk("ts"))
+
+                    def act(mm):
+                        ts_cb[0]()
                         ts_cb[0]()
                     m.schedule.append((m.clock + 0.1, act))
                 elif kind == "during_ts_preempt":
